@@ -26,6 +26,7 @@ import Pycdlib.Model.UdfNames
 import Pycdlib.Model.InPlace
 import Pycdlib.Model.VdOrder
 import Pycdlib.Model.Reloc
+import Pycdlib.Model.Iso
 namespace Pycdlib
 
 def parseCps (s : String) : Option (List Nat) :=
@@ -176,6 +177,11 @@ def dispatchPure (toks : List String) : Option String :=
     match Reloc.relocMany name.toList (← k.toNat?) [] with
     | some l => pure (".".intercalate (l.map String.ofList))
     | none => pure "none"
+  | "isorun" :: st :: ops => do
+    -- size bookkeeping machine: state, then one token per public edit; answer: the state after every edit
+    let s ← Iso.decState st
+    let os ← ops.mapM Iso.decOp
+    pure (s!"{if Iso.invB s then "inv" else "!inv"} " ++ " ".intercalate (Iso.trace s os))
   | ["vdorder", p, b, sv, t] => do
     let c : VdOrder.Counts := { pvds := ← p.toNat?, brs := ← b.toNat?, svds := ← sv.toNat?, vdsts := ← t.toNat? }
     pure s!"{".".intercalate ((VdOrder.order c).map toString)} {if VdOrder.udfRoomForOneMore c then 1 else 0}"
